@@ -96,7 +96,7 @@ def script_line(p):
         ",".join(map(str, p["sizes"])), ",".join(map(str, p["aligns"]))))
 
 
-def run_probe(chk, bindir, plan, tag, timeout=600):
+def run_probe(chk, bindir, plan, tag, timeout=45):
     d = os.path.join(chk.work, "galloc")
     os.makedirs(d, exist_ok=True)
     sp = os.path.join(d, "%s-%d.script" % (tag, plan["idx"]))
@@ -231,8 +231,14 @@ def run_part(chk, tier, builds=None):
         bindir = build(release=rel)
         events = []
         metas = []
+        hangs = 0
         for p in pl:
-            raw = run_probe(chk, bindir, p, bname)
+            if hangs >= 2:
+                # a hang costs the whole timeout: two hung plans are evidence enough
+                summary.setdefault("plans_not_run_after_hangs", []).append([bname, p["idx"]])
+                continue
+            raw = run_probe(chk, bindir, p, bname, timeout=45 if tier == "quick" else 180)
+            hangs += 1 if raw["killed"] else 0
             tr, info = to_trace(p, raw, len(metas))
             metas.append((p, raw, info))
             events += tr
